@@ -127,6 +127,17 @@ static double search_cosine(double rad_degrees)
     return d;
 }
 
+// cosine of a radius raised by a few rounding errors: a circle that is never
+// larger than requested, for reporting triangles that lie fully inside it
+static double inside_cosine(double rad_degrees)
+{
+    double d = cos( rad_degrees*D2R ) + 1.0e-15;
+    if (d > 1.0) {
+        d = 1.0;
+    }
+    return d;
+}
+
 HTMC::HTMC(int depth) throw (const char *) {
     init(depth);
 }
@@ -167,7 +178,10 @@ PyObject* HTMC::intersect(double ra, // all in degrees
     // This is used in the basic calculations
     const SpatialIndex &index = mHtmInterface.index();
 
-    double d = cos( radius*D2R );
+    // the cosine cannot resolve small radii exactly: for the inclusive list
+    // make sure no triangle touched by the circle is lost, for the list of
+    // fully covered triangles make sure none reaches outside the circle
+    double d = inclusive ? search_cosine(radius) : inside_cosine(radius);
 
     // Declare the domain and the lists
     SpatialDomain domain;    // initialize empty domain
@@ -305,10 +319,12 @@ PyObject* HTMC::cbincount(double rmin, // units of scale*angle in radians
         // get actual max search radius in radians for this point
         double d=0;
         double maxangle = rmax/scale;
+        // candidates are checked against the exact distance below, so the
+        // search circle only has to be at least as large as requested
         if (degrees) { 
-            d = cos( maxangle*D2R );
+            d = search_cosine(maxangle);
         } else {
-            d = cos( maxangle );
+            d = search_cosine(maxangle/D2R);
         }
 
         // Find the triangles around this point
